@@ -50,10 +50,28 @@ def gen_programs(rng, tier):
     return progs
 
 
-def item_tok(it):
+def item_tok(it, model=False):
     if it[0] == "B":
         return "B:" + it[1].hex()
+    if it[0] == "I":
+        # image: binary-wise a blob for the data and one for the mask
+        if model:
+            return "B:" + it[2].hex() + ("" if it[3] is None else " B:" + it[3].hex())
+        return "I:%s:%s:%s" % (it[1], it[2].hex(), "-" if it[3] is None else it[3].hex())
     return "P:%s:%s" % (gen.proto_tok(it[1]), gen.points_tok(it[2]))
+
+
+def flat_items(items):
+    """items as the binary model sees them (an image is one or two blobs)"""
+    out = []
+    for it in items:
+        if it[0] == "I":
+            out.append(("B", it[2]))
+            if it[3] is not None:
+                out.append(("B", it[3]))
+        else:
+            out.append(it)
+    return out
 
 
 def parse_fw(line):
@@ -89,10 +107,11 @@ def check_programs(rep, progs, tag, classify=None):
     impl = core.ensure_harness("debug")
     impl_rel = core.ensure_harness("release")
     lines = ["- " + " ".join(item_tok(i) for i in items) for items in progs]
+    mlines = ["- " + " ".join(item_tok(i, model=True) for i in items) for items in progs]
     o_impl = core.run_cases(impl, ["FW " + l for l in lines])
     o_rel = core.run_cases(impl_rel, ["FW " + l for l in lines])
     xmls = [parse_fw(o)[3] for o in o_impl]
-    o_model = core.run_cases(core.DRIVER, ["FW %s X:%s" % (l, x) for l, x in zip(lines, xmls)])
+    o_model = core.run_cases(core.DRIVER, ["FW %s X:%s" % (l, x) for l, x in zip(mlines, xmls)])
     rep.count(len(lines))
     n_dir = n_corr = 0
     for i, items in enumerate(progs):
@@ -102,10 +121,10 @@ def check_programs(rep, progs, tag, classify=None):
             bad = "a writer call panicked: %s" % " ".join(outs)[:200]
         elif any(o.startswith("e") for o in outs):
             bad = "a writer call on a valid program returned an error: %s" % " ".join(outs)[:200]
-        elif len(rbs) != len(items):
+        elif len(rbs) != len(flat_items(items)):
             bad = "the finalized file could not be read back (%s)" % (rbs[:1],)
         else:
-            for k, it in enumerate(items):
+            for k, it in enumerate(flat_items(items)):
                 exp = expected_readback(it)
                 if rbs[k] != exp:
                     bad = "item %d read back as [%s], written [%s]" % (k, rbs[k][:160], exp[:160])
